@@ -123,6 +123,9 @@ var externFns = map[string]externFn{
 	"strconv.ParseUint": {param: "strconv_ParseUint", ty: "List (BitVec 8) → BitVec 64 → BitVec 64 → (BitVec 64 × Option String)",
 		args: []lkind{kString, kInt, kInt}, rets: []lkind{kUint, kErr},
 		note: "the library function strconv.ParseUint (string, base, bitSize) ↦ (value, error), the error none for nil and otherwise some opaque name — not modelled, see the header, stage 8; passed in by the caller"},
+	// stage 9 (loops_arr.go): the result is a [32]byte array, by value: a list ASSUMED to have length 32
+	"golang.org/x/crypto/blake2b.Sum256": {param: "blake2b_Sum256", ty: "List (BitVec 8) → List (BitVec 8)", args: []lkind{kBytes}, ret: kBytes,
+		note: "the library function golang.org/x/crypto/blake2b.Sum256, bytes ↦ digest, a [32]byte array returned by value — not modelled; ASSUMED total, pure and to return a list of length 32, see the header, stage 9; passed in by the caller"},
 }
 
 // externMethods: methods of package-level variables of a library type, by "import path.Type.method"; the parameter is
